@@ -131,7 +131,17 @@ func c06Gen(r *driver.Rand, thorough bool) *driver.Plan {
 	if p.Mode != "pure" && r.Chance(1, 4) {
 		p.SetX("err_kind", 1+r.Intn(2))
 	}
-	if p.Mode != "pure" && r.Chance(1, 2) {
+	if stage == "StdErr" && r.Chance(1, 2) {
+		// the library's own error reader: many failures, of any kind
+		p.Mode = "try"
+		p.FailAt = nil
+		for i := 0; i < n; i++ {
+			if r.Chance(1, 2) {
+				p.FailAt = append(p.FailAt, i)
+			}
+		}
+		p.SetX("err_kind", r.Intn(3))
+	} else if p.Mode != "pure" && r.Chance(1, 2) {
 		k := 1 + r.Intn(2)
 		p.FailAt = nil
 		for i := 0; i < k; i++ {
@@ -166,6 +176,10 @@ func c06Gen(r *driver.Rand, thorough bool) *driver.Plan {
 	}
 	if !isGenerator(stage) && r.Chance(1, 8) {
 		p.SetX("late_build", 1+r.Intn(12))
+	}
+	if p.CancelStep < 0 && p.CancelMs == 0 && !p.CancelAtEnd && r.Chance(1, 3) {
+		p.SetX("uses", 2)
+		p.SetX("cancel_between", 1)
 	}
 	genSched(r, p)
 	if isGenerator(stage) && (p.Policy == driver.PolLowest || p.Policy == driver.PolRunBlock) {
@@ -208,7 +222,9 @@ func c06Enum(thorough bool) []*driver.Plan {
 	return out
 }
 
-func c06Build(e *driver.Env) {
+func c06Build(e *driver.Env) { driver.Phased(e, c06BuildOne, c06Final) }
+
+func c06BuildOne(e *driver.Env) {
 	s := BuildStage(e, "C06.b")
 	e.Data = s
 }
